@@ -584,6 +584,136 @@ def verdictshift(run, fx):
         run.held('RESOLVED', inst, fn.loc(ss[0]), 'setShift(%s) under nothing but tests of %s itself' % (res['n'], res['n']))
 
 
+def axisbase(run, fx):
+    """RESOLVED: the four interval sets of ShiftCollider work on x, y, x+y and x-y.  ShiftCollider::resolve converts the best position of
+    axis i back with `- tbase`, where tbase must be that axis' linear form of the current offset: (1,0), (0,1), (1,1), (1,-1) for
+    i = 0..3, read from the switch arms as linear forms over (_currOffset.x, _currOffset.y).  With the sum form on the diff axis the
+    shift handed back is off by twice the vertical offset and the glyph is declared resolved at a position that was never tested."""
+    from . import linear
+    from .validators import case_context
+    fn = fx.one('graphite2::ShiftCollider::resolve')
+    ctx = case_context(fn)
+    want = {0: (1, 0), 1: (0, 1), 2: (1, 1), 3: (1, -1)}
+    got = {}
+    for _, e in fn.elements():
+        if e['k'] == 'BinaryOperator' and e['op'] == '=' and fn.render(fn.N(e['c'][0])) == 'tbase':
+            t, c = linear.lin(fn, e['c'][1])
+            cx = sum(v for k_, v in t.items() if k_.endswith('_currOffset.x'))
+            cy = sum(v for k_, v in t.items() if k_.endswith('_currOffset.y'))
+            other = [k_ for k_ in t if not k_.endswith(('_currOffset.x', '_currOffset.y'))]
+            arms = ctx.get(fn.block_of[e['i']], ())
+            for a in arms:
+                keys = [0, 1, 2, 3] if a == 'default' else [int(a)] if str(a).lstrip('-').isdigit() else []
+                for k_ in keys:
+                    if a == 'default' and k_ in got:
+                        continue
+                    got[k_] = (cx, cy) if not other and c == 0 else None
+    inst = 'resolve converts axis i back with that axis\' own form of the offset'
+    if len(got) < 4:
+        run.broken('RESOLVED', inst, 'the per-axis `tbase = ..` arms of ShiftCollider::resolve were not recognised (%s)' % got, fn.where())
+        return
+    # explicit case arms take precedence over a default arm
+    bad = [(k_, got[k_]) for k_ in sorted(want) if got.get(k_) != want[k_]]
+    if bad:
+        run.violated('RESOLVED', inst, fn.where(), 'for axis %d ShiftCollider::resolve uses tbase = %s * (offset.x, offset.y), the axis is %s: the shift handed back is wrong by a multiple of the '
+                     'other coordinate, the accumulated offset can leave the limit and the position reported as resolved was never tested' % (bad[0][0], bad[0][1], want[bad[0][0]]))
+    else:
+        run.held('RESOLVED', inst, fn.where(), 'x, y, x+y, x-y for i = 0..3')
+
+
+def limitdiag(run, fx):
+    """LIMITARGS for the two diagonal interval sets: moving along x+y moves x and y the same way, along x-y opposite ways.  The range
+    ShiftCollider::initSlot leaves free on a diagonal axis (a, b) is therefore bounded, in the positive direction, by the smaller of the
+    room x has in direction a and the room y has in direction b, and in the negative direction by the rooms the other way -- where
+    room(x,+) = limit.tr.x - shift.x, room(x,-) = shift.x - limit.bl.x, and likewise for y.  The four `min(..)` arguments of each diagonal
+    arm are read as linear forms (through const locals) and compared with these, derived from the axis, not copied from the source."""
+    from . import linear
+    from .validators import case_context
+    fn = fx.one('graphite2::ShiftCollider::initSlot')
+    ctx = case_context(fn)
+
+    def room(coord, sign):
+        # linear form (as a frozenset of (term-suffix, coefficient))
+        return frozenset({('_limit.tr.' + coord, 1), ('currShift.' + coord, -1)}) if sign > 0 else frozenset({('currShift.' + coord, 1), ('_limit.bl.' + coord, -1)})
+
+    def form(n):
+        t, c = linear.lin(fn, n)
+        if c != 0:
+            return None
+        out = set()
+        for k_, v in t.items():
+            suf = [s_ for s_ in ('_limit.tr.x', '_limit.tr.y', '_limit.bl.x', '_limit.bl.y', 'currShift.x', 'currShift.y') if k_.endswith(s_)]
+            if len(suf) != 1:
+                return None
+            out.add((suf[0], v))
+        return frozenset(out)
+    axes = {2: (1, 1), 3: (1, -1)}
+    found = {}
+    for _, e in fn.elements():
+        if e['k'] != 'BinaryOperator' or e['op'] != '=' or fn.render(fn.N(e['c'][0])) not in ('mn', 'mx'):
+            continue
+        arms = [a for a in ctx.get(fn.block_of[e['i']], ()) if str(a) in ('2', '3')]
+        if len(arms) != 1:
+            continue
+        mins = [x for x in fn.walk(e['c'][1]) if x['k'] == 'CallExpr' and (x.get('fq') or '').split('::')[-1].split('<')[0] == 'min' and len(x.get('args') or []) == 2]
+        if len(mins) != 1:
+            continue
+        found[(int(arms[0]), fn.render(fn.N(e['c'][0])))] = (e, frozenset(form(fn.deref(a)) for a in mins[0]['args']))
+    inst = 'diagonal limits are taken from the sides the axis moves towards'
+    if len(found) != 4:
+        run.broken('LIMITARGS', inst, 'expected mn / mx = +-2 * min(a, b) + shift in the two diagonal arms of initSlot, recognised %d' % len(found), fn.where())
+        return
+    bad = None
+    for (ax, which), (e, got) in sorted(found.items()):
+        a, b = axes[ax]
+        sgn = 1 if which == 'mx' else -1
+        want = frozenset({room('x', sgn * a), room('y', sgn * b)})
+        if got != want and bad is None:
+            bad = (ax, which, e, got, want)
+    if bad:
+        ax, which, e, got, want = bad
+        run.violated('LIMITARGS', inst, fn.loc(e), 'on the %s axis `%s` is bounded by min over %s; moving that way along %s the glyph approaches %s: the free range reaches outside the limit '
+                     'rectangle on one side (and is cut short on the other), so a resolved shift can leave the limit' % (
+                         'x+y' if ax == 2 else 'x-y', which, [sorted(x) if x else None for x in got], 'x+y' if ax == 2 else 'x-y', [sorted(x) for x in want]))
+    else:
+        run.held('LIMITARGS', inst, fn.where(), 'mn / mx of both diagonal arms match the rooms derived from (1,1) and (1,-1)')
+
+
+def targetown(run, fx):
+    """LIMITARGS: in ShiftCollider::mergeSlot the TARGET's place is its own accumulated offset plus its own current shift, both members
+    set by initSlot; the parameters describe the NEIGHBOUR.  No sum that contains the member `_currOffset` also contains a term taken
+    from a parameter (the neighbour's `currShift` in place of the target's `_currShift`: same name but for an underscore)."""
+    from . import linear
+    fn = fx.one('graphite2::ShiftCollider::mergeSlot')
+    pn = {p_['n'] for p_ in fn.f['params']}
+    n, bad = 0, None
+    for _, e in fn.elements():
+        if e['k'] != 'DeclStmt':
+            continue
+        for x in e.get('decls', []):
+            if x.get('init') is None or (x.get('t') or '').replace('const ', '') != 'float':
+                continue
+            try:
+                t, c = linear.lin(fn, x['init'])
+            except Exception:
+                continue
+            if not any('_currOffset.' in k_ for k_ in t):
+                continue
+            n += 1
+            par = [k_ for k_ in t if k_.split('.')[0].split('->')[0] in pn]
+            if par and bad is None:
+                bad = (e, x.get('n'), par)
+    inst = 'the target\'s position in mergeSlot is built from the target\'s own state'
+    if n < 2:
+        run.broken('LIMITARGS', inst, 'expected the target position locals (tx, ty) of mergeSlot, found %d sums over _currOffset' % n, fn.where())
+    elif bad:
+        e, nm, par = bad
+        run.violated('LIMITARGS', inst, fn.loc(e), '`%s` adds the parameter term %s to the target\'s own offset: the parameters of mergeSlot describe the neighbour, so the exclusions are computed '
+                     'for a target that is not where it really is and resolve() reports "resolved" while the octaboxes still overlap' % (nm, par))
+    else:
+        run.held('LIMITARGS', inst, fn.where(), '%d sums over _currOffset, members only' % n)
+
+
 def initfresh(run, fx):
     """the colliders are reused from glyph to glyph; initSlot re-arms one for the next target.  Nothing in it may read a member that
     it (re)assigns from one of its parameters further down: the value read would be the one left over from the previous glyph (the target's origin computed from
@@ -829,7 +959,7 @@ def run(run):
     N = 4 if run.tier == 'thorough' and not run.cfg_tag else 3
     for name, f in (('ZONESET', lambda: zoneset(run, fx, N)), ('ZONEWRITERS', lambda: zonewriters(run, fx)),
                     ('OFFERED', lambda: offered(run, fx, N)), ('RESOLVED', lambda: resolved(run, fx)), ('RESOLVED', lambda: verdictshift(run, fx)),
-                    ('LIMITARGS', lambda: limitargs(run, fx)), ('LIMITARGS', lambda: kernclamp(run, fx)), ('LIMITARGS', lambda: initfresh(run, fx))):
+                    ('LIMITARGS', lambda: limitargs(run, fx)), ('LIMITARGS', lambda: kernclamp(run, fx)), ('LIMITARGS', lambda: initfresh(run, fx)), ('RESOLVED', lambda: axisbase(run, fx)), ('LIMITARGS', lambda: limitdiag(run, fx)), ('LIMITARGS', lambda: targetown(run, fx))):
         try:
             f()
         except AnalysisBroken as ex:
